@@ -32,6 +32,7 @@ type opInfo struct {
 	fmTokens                uint64 // units
 	fmNonce                 int64
 	fmSig                   bool
+	fmSigner                *world.Key // who signed the marker (driver bookkeeping, not logged)
 	accrued                 uint64
 }
 
@@ -360,6 +361,9 @@ func (g *gen) do(from *world.Key, fn string, input interface{}, value uint64, op
 		al.owner = from
 		w.SetName(al.id, al.name)
 		g.allocs = append(g.allocs, al)
+	}
+	if res.Class == "ok" && fn == "free_allocation_request" {
+		g.fmDone = append(g.fmDone, doneMarker{from: from, signer: op.fmSigner, in: input, op: op})
 	}
 	snap := g.snapshot()
 	post := g.balances()
